@@ -147,7 +147,9 @@ func Replace(doc interface{}, p JSONPos, nv interface{}) interface{} {
 func Replacements() []interface{} {
 	return []interface{}{nil, true, float64(0), float64(1), float64(-1), float64(1 << 31), "", "x",
 		[]interface{}{}, map[string]interface{}{}, []interface{}{nil}, map[string]interface{}{"a": nil},
-		"\"", "\n", "\ufffd", "[", json.RawMessage("9223372036854775807"), json.RawMessage("-9223372036854775808")}
+		"\"", "\n", "\ufffd", "[", json.RawMessage("9223372036854775807"), json.RawMessage("-9223372036854775808"),
+		// numbers that are integers to a JSON schema validator but not to a decoder filling an int
+		json.RawMessage("1.0"), json.RawMessage("1e0"), json.RawMessage("2.0"), json.RawMessage("100000000000000000000")}
 }
 
 // SwapKind turns an object into the array of its values and an array into an object keyed by index.
@@ -209,4 +211,30 @@ func DuplicateKey(doc interface{}, p JSONPos, second interface{}) (string, bool)
 	kb, _ := json.Marshal(key)
 	parts = append(parts, string(kb)+":"+Marshal(second))
 	return strings.Replace(text, string(mb), "{"+strings.Join(parts, ",")+"}", 1), true
+}
+
+// ShadowSection renders doc (an object) with its top-level member 'section' written twice: first, under
+// the key 'firstKey' (the same key, or one differing in letter case only), the value 'first'; then the
+// other members as they are. A JSON schema validator looks at the last occurrence of a key (and not at all
+// at a key it does not know), a decoder filling structs also takes in the earlier one.
+func ShadowSection(doc interface{}, section, firstKey string, first interface{}) (string, bool) {
+	top, ok := doc.(map[string]interface{})
+	if !ok {
+		return "", false
+	}
+	if _, ok := top[section]; !ok {
+		return "", false
+	}
+	keys := make([]string, 0, len(top))
+	for k := range top {
+		keys = append(keys, k)
+	}
+	sort.Strings(keys)
+	kb, _ := json.Marshal(firstKey)
+	parts := []string{string(kb) + ":" + Marshal(first)}
+	for _, k := range keys {
+		kb, _ := json.Marshal(k)
+		parts = append(parts, string(kb)+":"+Marshal(top[k]))
+	}
+	return "{" + strings.Join(parts, ",") + "}", true
 }
